@@ -371,6 +371,82 @@ pub fn gen_chain(rng: &mut StdRng, n_operands: usize, pattern: u8) -> (Vec<OpDes
     (tab, s)
 }
 
+/// random trees with a random subset of the binary operators written in call form `op(l, r)`, nested to any depth (C08)
+fn render_calls(rng: &mut StdRng, t: &Tr, tab: &[OpDesc], p_call: f64, out: &mut String) {
+    match t {
+        Tr::Lit(s) => out.push_str(s),
+        Tr::Var(n, must) => if *must { out.push_str(&format!("{{{n}}}")) } else { out.push_str(n) },
+        Tr::Const(o) => out.push_str(tab[*o].name),
+        Tr::Un(o, a) => {
+            out.push_str(tab[*o].name);
+            out.push('(');
+            render_calls(rng, a, tab, p_call, out);
+            out.push(')');
+        }
+        Tr::Bin(o, l, r) => {
+            if rng.random_bool(p_call) {
+                out.push_str(tab[*o].name);
+                out.push_str(if rng.random_bool(0.5) { "(" } else { " (" });
+                render_calls(rng, l, tab, p_call, out);
+                out.push_str(if rng.random_bool(0.5) { ", " } else { "," });
+                render_calls(rng, r, tab, p_call, out);
+                out.push(')');
+            } else {
+                // infix with explicit parentheses around both operands (grouping is not what this family is about)
+                out.push('(');
+                render_calls(rng, l, tab, p_call, out);
+                out.push_str(&format!(") {} (", tab[*o].name));
+                render_calls(rng, r, tab, p_call, out);
+                out.push(')');
+            }
+        }
+    }
+}
+fn render_calls_min(rng: &mut StdRng, t: &Tr, tab: &[OpDesc], p_call: f64, out: &mut String) {
+    // minimal parentheses around infix operands so that priorities matter next to call forms
+    match t {
+        Tr::Bin(o, l, r) if !rng.random_bool(p_call) => {
+            let p = tab[*o].prio;
+            let lp = matches!(**l, Tr::Bin(lo, ..) if tab[lo].prio < p);
+            let rp = matches!(**r, Tr::Bin(ro, ..) if tab[ro].prio <= p);
+            if lp { out.push('('); }
+            render_calls_min(rng, l, tab, 1.0, out);
+            if lp { out.push(')'); }
+            out.push_str(&format!(" {} ", tab[*o].name));
+            if rp { out.push('('); }
+            render_calls_min(rng, r, tab, 1.0, out);
+            if rp { out.push(')'); }
+        }
+        Tr::Bin(o, l, r) => {
+            out.push_str(tab[*o].name);
+            out.push('(');
+            render_calls_min(rng, l, tab, p_call, out);
+            out.push_str(", ");
+            render_calls_min(rng, r, tab, p_call, out);
+            out.push(')');
+        }
+        other => render_calls(rng, other, tab, p_call, out),
+    }
+}
+pub fn gen_calls(rng: &mut StdRng) -> (Vec<OpDesc>, String) {
+    let tab = gen_table(rng);
+    let bins: Vec<usize> = tab.iter().enumerate().filter(|(_, o)| o.bin).map(|(i, _)| i).collect();
+    let uns: Vec<usize> = tab.iter().enumerate().filter(|(_, o)| o.un && !o.bin).map(|(i, _)| i).collect();
+    let n = rng.random_range(2..=9);
+    let shape = *[0u8, 2, 2, 0, 1].choose(rng).unwrap();
+    let tree = {
+        let mut g = G { rng, bins, uns, consts: vec![], vars: vec![("v0".into(), false), ("v1".into(), false), ("v2".into(), false)], p_un: 0.1, p_lit: 0.5 };
+        g.tree(n, shape)
+    };
+    let mut s = String::new();
+    if rng.random_bool(0.5) {
+        render_calls(rng, &tree, &tab, 0.7, &mut s);
+    } else {
+        render_calls_min(rng, &tree, &tab, 0.6, &mut s);
+    }
+    (tab, s)
+}
+
 /// token soup: random sequences of tokens of the table, parentheses, commas, literals, variables and junk
 pub fn gen_soup(rng: &mut StdRng, len: usize) -> (Vec<OpDesc>, String) {
     let tab = gen_table(rng);
@@ -514,6 +590,10 @@ pub fn main(args: &[String]) -> i32 {
                 };
                 let s = gen_lex_text(&mut rng, &t);
                 (t, s, family.clone())
+            }
+            "calls" => {
+                let (t, s) = gen_calls(&mut rng);
+                (t, s, "calls".to_string())
             }
             "chain" => {
                 let sizes = [9usize, 17, 31, 32, 33, 63, 64, 65, 66, 127, 128, 129, 130, 191, 192, 193, 194, 257, 300];
